@@ -433,11 +433,15 @@ class AutoSerialize:
             subgroup = group.require_group(name)
             subgroup.attrs["_numpy_rng"] = True
             # Get state from the bit_generator
-            rng_state = value.bit_generator.state
-            if hasattr(rng_state, "tolist"):
-                subgroup.attrs["_rng_state"] = rng_state.tolist()
-            else:
-                subgroup.attrs["_rng_state"] = rng_state
+            def _jsonable(state):
+                # MT19937 / Philox / SFC64 keep ndarrays inside their state dict
+                if isinstance(state, dict):
+                    return {k: _jsonable(v) for k, v in state.items()}
+                if hasattr(state, "tolist"):
+                    return state.tolist()
+                return state
+
+            subgroup.attrs["_rng_state"] = _jsonable(value.bit_generator.state)
             subgroup.attrs["_rng_type"] = value.__class__.__name__
             subgroup.attrs["_bit_generator_type"] = value.bit_generator.__class__.__name__
 
